@@ -356,6 +356,12 @@ LIB_META.update({
             "programs); numeric spellings of every dialect in 6 contexts; seeded longer random bodies. Oracle: the checker's own string / "
             "number decoders applied to the k-th literal of input and output. Non-trivial = distinct (batch program, configuration) whose "
             "output differs from the input; coverage counters give the number of literals judged and rewritten."),
+    "C05": ("exploration", "Pinned and exhaustive small scope: templates (a o b) p c, a p (b o c), doubled parentheses, (u a) p b, a p (u b), "
+            "u(a o b), u(u a), truncation forms (f()), (...), prefix forms, Luau type assertions and if-expressions as operands, for every "
+            "pair of the 15 (+6 Lua 5.3) binary and 3-4 unary operators (depth 3 over one representative per precedence class in the "
+            "thorough tier) x 15 expression contexts x short/long operands x 4 width classes (fits / hangs at top level / hangs at "
+            "every level / 40). Oracle: normal form N (operator tree shape, truncation markers in multi-value positions) and re-parse. "
+            "The H1 trace counts evaluations of the parenthesis rule per path (paren.flat / paren.hang x context x removed?)."),
 })
 
 COMMON_ASSUMPTIONS = [
